@@ -69,7 +69,7 @@ ALONE_ENV = {"ASAN_OPTIONS": "detect_leaks=0:abort_on_error=0:exitcode=99:alloca
 def with_alone(exe_alone, ops, dropped=None):
     """Run every workload alone (single-threaded process of the ASan/UBSan build) and append `alone=<digest>` to its
     op line.  A workload whose run-alone execution is not memory-safe / UB-free is outside the hypothesis of C18
-    (that is C01's business): it is removed from its case and counted in `dropped` (kind -> [count, fault summary])."""
+    (that is C01's business): it is removed from its case and counted in `dropped` (kind -> {fault summary: count})."""
     dropped = dropped if dropped is not None else {}
     cases = corr.split_cases(ops, ("case",))
     done = {}
@@ -90,8 +90,8 @@ def with_alone(exe_alone, ops, dropped=None):
                 w = c[j].split(" ")
                 if w[0] != "w":
                     raise RuntimeError(f"alone pass: fault outside a workload: {c[j]!r} -> {r[j]!r}")
-                e = dropped.setdefault(w[2], [0, r[j][:160]])
-                e[0] += 1
+                e = dropped.setdefault(w[2], {})
+                e[r[j][:160]] = e.get(r[j][:160], 0) + 1
                 cases[ci] = c[:j] + c[j + 1:]
                 again.append(ci)
                 continue
@@ -259,11 +259,10 @@ def run(chk):
     sres, _ = core.run_harness_lines(exe, ["alone"], stat_ops, env=TSAN_ENV)
     chk.extra["workload_coverage"] = {o.split(" ")[1]: " ".join(r.split(" ")[2:]) for o, r in zip(stat_ops, sres)}
     chk.extra["workloads_excluded_because_their_run_alone_execution_faulted_under_asan_ubsan"] = \
-        {k: {"count": v[0], "first": v[1]} for k, v in sorted(dropped.items())}
+        {k: dict(sorted(v.items())) for k, v in sorted(dropped.items())}
     chk.extra["thread_counts"] = THREAD_COUNTS
     chk.extra["modelled_not_proved"] = [
         "that the C++ functions respect the footprints of the generated table (syntactic scan + TSan runs)",
-        "crc32 nibble-table algorithm = bitwise IEEE CRC-32 for all inputs (table entries are proved, the fold is compared at run time)",
     ]
     chk.cov["rule"] = ("case = k in {2,4,8,16} workloads (kind, iterations, seed) on thread-private objects, run alone and then "
                        "concurrently 1-3 times with seeded random yields under ThreadSanitizer; distinct_nontrivial counts "
